@@ -48,11 +48,12 @@ func vStubFragmentsIdx(r *reader.Reader, p *pages.Page) ([]text.TextFragment, er
 //symgo:redirect (*github.com/tsawler/tabula/reader.Reader).GetPage vStubGetPageIdx
 //symgo:redirect (*github.com/tsawler/tabula/reader.Reader).ExtractTextFragments vStubFragmentsIdx
 //symgo:redirect (*github.com/tsawler/tabula/reader.Reader).Close vStubClose
-//symgo:desc 5-page stub document (reader cut at PageCount/GetPage/ExtractTextFragments/Close): title page without marginal text, pages 2..5 with the same header (drawn bare, or padded with a trailing or leading blank - enumerated) and footer; selection = one or two pages out of 2..5 (enumerated), exclusion = headers, footers or both (enumerated), API = Text, Lines or Paragraphs (enumerated): the excluded marginal text does not appear in the output and the body text of every selected page does. (Enumerated structure; concrete fragments)
+//symgo:desc 5-page stub document (reader cut at PageCount/GetPage/ExtractTextFragments/Close): title page without marginal text, pages 2..5 with the same header (drawn bare, padded with a trailing or leading blank, or containing the year range 2023-2024 - enumerated) and footer; selection = one or two pages out of 2..5 (enumerated), exclusion = headers, footers or both (enumerated), API = Text, Lines or Paragraphs (enumerated): the excluded marginal text does not appear in the output and the body text of every selected page does. (Enumerated structure; concrete fragments)
 func H_C11_filter_uses_document_page_index() {
 	vPageCount = 5
 	vCloseCalls, vCloseErr = 0, false
-	vHeaderText = []string{"Running Header", "Running Header ", " Running Header"}[vAnyIntIn(0, 2)]
+	// the running header: bare, padded with a blank, or containing two consecutive numbers (a year range is not a page number)
+	vHeaderText = []string{"Running Header", "Running Header ", " Running Header", "Running Header FY 2023-2024"}[vAnyIntIn(0, 3)]
 	a := vAnyIntIn(2, 5)
 	b := vAnyIntIn(a, 5) // b == a: single page
 	mode := vAnyIntIn(0, 2)
